@@ -1373,3 +1373,21 @@ mod tests {
         assert_vec_eq(tokens, exp_tokens);
     }
 }
+
+#[cfg(cicada_verif)]
+pub mod verif_export {
+    //! wrappers over private functions of this module, for the verification harness
+    use super::Shell;
+    use crate::types::Tokens;
+
+    pub fn expand_alias(sh: &Shell, tokens: &mut Tokens) { super::expand_alias(sh, tokens) }
+    pub fn expand_home(tokens: &mut Tokens) { super::expand_home(tokens) }
+    pub fn expand_brace(tokens: &mut Tokens) { super::expand_brace(tokens) }
+    pub fn expand_brace_range(tokens: &mut Tokens) { super::expand_brace_range(tokens) }
+    pub fn expand_one_env(sh: &Shell, token: &str) -> String { super::expand_one_env(sh, token) }
+    pub fn env_in_token(token: &str) -> bool { super::env_in_token(token) }
+    pub fn need_expand_brace(line: &str) -> bool { super::need_expand_brace(line) }
+    pub fn should_do_dollar_command_extension(line: &str) -> bool { super::should_do_dollar_command_extension(line) }
+    pub fn brace_getitem(s: &str, depth: i32) -> (Vec<String>, String) { super::brace_getitem(s, depth) }
+    pub fn do_command_substitution(sh: &mut Shell, tokens: &mut Tokens) { super::do_command_substitution(sh, tokens) }
+}
